@@ -117,6 +117,25 @@ def convert_all(rep, prog, rule):
             if nm == "into_component":
                 n_conv += 1
                 continue
+            if nm in ("chunks_exact", "chunks_exact_mut", "as_chunks", "as_chunks_mut", "array_chunks") \
+                    and len(c.args) == 2:
+                # a walk in fixed-size groups converts the remainder too
+                k = sym.operand(c.args[1], (c.bb, "term"))
+                rem = [c2 for c2 in f.calls() if (c2.method or c2.name.rsplit("::", 1)[-1]) in
+                       ("remainder", "into_remainder", "as_rchunks")]
+                keyc = "%s|%s|remainder" % (f.name.rsplit("::", 1)[-1], nm)
+                if rem:
+                    rep.ok(rule, keyc, c.at, "the remainder of the chunked walk is taken (%s)" % rem[0].at)
+                elif k[0] == "const" and isinstance(k[1], int) and k[1] > 1:
+                    rep.bad(rule, keyc + "|dropped", c.at,
+                            "%s walks the components of a row in groups of %d (%s) and never takes the "
+                            "remainder: the last (width * components) %% %d components of every row are not "
+                            "converted and keep the destination's old content (the maximum does not map to "
+                            "the maximum there, widening then narrowing does not return the value)"
+                            % (f.name, k[1], nm, k[1]))
+                else:
+                    rep.unk(rule, keyc, c.at, "chunk size %s without a remainder" % fmt(k)[:40])
+                continue
             if nm not in RAW_COPY or prog.call_targets(c):
                 continue
             if nm == "cast" and "ptr" not in c.name:
